@@ -285,7 +285,7 @@ def classify_restart_diff(comp, a, b, case):
     return "none"
 
 
-HEADER = ("From RN Require Import SM.Replay RaftLog.SnapFile SM.SnapCodec SM.Concrete.\n"
+HEADER = ("From RN Require Import SM.Replay RaftLog.SnapFile SM.SnapCodec SM.Concrete SM.ConcreteNs.\n"
           "Open Scope N_scope.\nOpen Scope string_scope.\n")
 
 
@@ -463,6 +463,18 @@ def run(chk, replay=None):
                 real = list(bytes.fromhex(rec["value"]))
                 exprs.append("(enc_value %s, dec_value %s)" % (coq_value_of_dump(v["get"], v["history"]["list"]), coq_bytes(real)))
                 meta.append(("value", v, real))
+            elif rec["tree"] == "T_NAMESPACE" and rec["value"] not in seen_vals:
+                seen_vals.add(rec["value"])
+                nid = bytes.fromhex(rec["key"]).decode("utf-8", "replace")
+                ent = [x for x in dump["namespace"]["sorted"] if x["id"] == nid]
+                # the marker record is written without being a namespace of the live actor
+                name, flag = (ent[0]["name"], ent[0]["flag"]) if ent else ("", 2)
+                real = list(bytes.fromhex(rec["value"]))
+                if nid == "__already_sync" and bytes(real[2 + len(nid):4 + len(nid)]) == b"\x12\x00":
+                    name, flag = "", 2      # the marker record itself (a namespace with this id may exist as well)
+                exprs.append("(enc_ns %s %s (db_type %d), dec_ns %s)" % (
+                    coq_bytes(list(nid.encode("utf-8"))), coq_bytes(list(name.encode("utf-8"))), flag, coq_bytes(real)))
+                meta.append(("ns", (nid, name, flag), real))
             elif rec["tree"] == "T_SEQUENCE" and len(seen_vals) < 400:
                 real = list(bytes.fromhex(rec["value"]))
                 n = int.from_bytes(bytes(real), "big")
@@ -476,7 +488,7 @@ def run(chk, replay=None):
     except RuntimeError as ex:
         chk.violation("model evaluation failed: %s" % str(ex)[:300], {"broken": "model evaluation", "log": str(ex)[-3000:]}, False)
         cvals = []
-    codec_counts = {"item": 0, "value": 0, "be8": 0}
+    codec_counts = {"item": 0, "value": 0, "be8": 0, "ns": 0}
     for (kind, a, real), mv in zip(meta, cvals):
         n_eval += 1
         codec_counts[kind] += 1
@@ -489,6 +501,11 @@ def run(chk, replay=None):
             got = None if dec == "None" else [list(dec[1]["rtree"]), list(dec[1]["rkey"]), list(dec[1]["rval"])]
             if got != want:
                 bad = "dec_item_frame(real frame) = %s, written record %s" % (got, want)
+        elif kind == "ns":
+            ok_dec = isinstance(dec, tuple) and dec[0] == "Ok" and model_opt_bytes(dec[1]["nd_id"]) == a[0] \
+                and model_opt_bytes(dec[1]["nd_name"]) == a[1] and model_opt_bytes(dec[1]["nd_type"]) == ("0" if a[2] == 1 else "2")
+            if not ok_dec:
+                bad = "dec_ns(real bytes) = %s, namespace %s" % (str(dec)[:80], a)
         elif kind == "be8":
             if dec == "None" or dec[1] != a:
                 bad = "of_be8(real bytes) = %s, value %s" % (dec, a)
